@@ -315,7 +315,7 @@ func hiddenAtObjectDepth(m J, depth int) (int, []string) {
 func (s *Sim) monEnd(t *Task) {
 	if len(t.held) > 0 {
 		ids := append([]string(nil), t.held...)
-		s.violate("C09", "lock-leak", t.EntryKind+":"+lockClass(s, t, ids[0]),
+		s.violate("C09", "lock-leak", t.heldBy[ids[0]],
 			fmt.Sprintf("task %s (%s) returned (err=%v) still holding %v", t.ID, t.EntryKind, t.Err, ids))
 		// free them so that the run can go on and other tasks are not blamed
 		for _, k := range ids {
